@@ -1087,4 +1087,60 @@ def step (s : IOState) : List String → IOState × String
     | _, _, _ => (s, "bad-op")
   | _ => (s, "bad-op")
 
+/-! ## multi-input: the module registered per sub-space and the input width of `final_dense`
+   (`EvolvableMultiInput.__init__` / `build_feature_extractor` / `calc_extracted_features_dim` /
+   `recreate_network`) -/
+
+/-- a sub-space of a Dict / Tuple observation space: class name, `len(shape)`, `spaces.flatdim` -/
+structure SubSpace where
+  cls : String
+  ndim : Int
+  flatdim : Int
+deriving DecidableEq, Repr
+
+abbrev SubSpaces := List (String × SubSpace)
+
+/-- `is_vector_space`: 0-D / 1-D Box, Discrete, MultiDiscrete -/
+def SubSpace.isPlainVector (s : SubSpace) : Bool :=
+  (s.cls == "Box" && (s.ndim == 0 || s.ndim == 1)) || s.cls == "Discrete" || s.cls == "MultiDiscrete"
+
+/-- `is_adhoc_vector_space`: also a 2-D Box unless `recurrent`, and a Box of more than 3 dimensions -/
+def SubSpace.isVector (recurrent : Bool) (s : SubSpace) : Bool :=
+  s.isPlainVector || (s.cls == "Box" && s.ndim == 2 && !recurrent) || (s.cls == "Box" && decide (3 < s.ndim))
+
+/-- what `build_feature_extractor` registers under `key` (`vec` = keys of the vector spaces):
+    nothing for a 0-D / 1-D Box, a CNN for an image, an LSTM for a 2-D Box that is not a vector space,
+    `nn.Flatten` otherwise -/
+def SubSpace.extractor (vec : List String) (key : String) (s : SubSpace) : Option String :=
+  if s.cls == "Box" && (s.ndim == 0 || s.ndim == 1) then none
+  else if s.cls == "Box" && s.ndim == 3 then some "EvolvableCNN"
+  else if s.cls == "Box" && s.ndim == 2 && !vec.contains key then some "EvolvableLSTM"
+  else some "Flatten"
+
+def multiVecSpaces (recurrent : Bool) (obs : SubSpaces) : SubSpaces := obs.filter (fun e => e.2.isVector recurrent)
+
+/-- `total_vector_dims` -/
+def multiVecDims (recurrent : Bool) (obs : SubSpaces) : Int :=
+  ((multiVecSpaces recurrent obs).map (fun e => e.2.flatdim)).sum
+
+/-- `feature_net`: key ↦ class, insertion order; the vector MLP last -/
+def multiNet (recurrent mlp : Bool) (mlpName : String) (obs : SubSpaces) : List (String × String) :=
+  obs.filterMap (fun e => (e.2.extractor ((multiVecSpaces recurrent obs).map Prod.fst) e.1).map (fun c => (e.1, c))) ++
+    (if mlp then [(mlpName, "EvolvableMLP")] else [])
+
+/-- the modules whose output is a latent vector: those not registered under the key of a vector space -/
+def multiLatentMods (recurrent mlp : Bool) (mlpName : String) (obs : SubSpaces) : List (String × String) :=
+  (multiNet recurrent mlp mlpName obs).filter (fun e => !((multiVecSpaces recurrent obs).map Prod.fst).contains e.1)
+
+/-- `in_features` of `final_dense`: one latent vector per such module, plus the raw vector observations
+    unless they go through the vector MLP -/
+def multiFinalIn (recurrent mlp : Bool) (mlpName : String) (latent : Int) (obs : SubSpaces) : Int :=
+  latent * ((multiLatentMods recurrent mlp mlpName obs).length : Int) + (if mlp then 0 else multiVecDims recurrent obs)
+
+/-- the width `forward` concatenates: the outputs (each `latent` wide) of the modules kept in
+    `extracted_features` (those not popped as vector inputs), then `vector_features` -/
+def multiForwardWidth (recurrent mlp : Bool) (mlpName : String) (latent : Int) (obs : SubSpaces) : Int :=
+  (((multiLatentMods recurrent mlp mlpName obs).filter (fun e => !(mlp && e.1 == mlpName))).map (fun _ => latent)).sum +
+    (if mlp then latent else multiVecDims recurrent obs)
+
 end Arch
